@@ -174,32 +174,46 @@ def webvtt_lang(ctx, report):
 
 
 def sami_neighbours(ctx, report):
+    """SAMIWriter._find_closest_sync folded on stub documents: for every set of existing sync times
+    drawn from {100, 200, 300, 400} (all 16 subsets, in document order) and every new time in
+    {50, 150, 250, 350, 450}, the new sync must be placed right after the LAST earlier sync, else
+    right before the FIRST later one, else nowhere."""
+    import itertools
+    from ..core.constfold import Folder, Stub
     fn = ctx.index.get_function("pycaption/sami.py", "SAMIWriter._find_closest_sync")
     report.covered(fn)
-    t = src(fn.node)
-    defs = {}
-    for n in walk_no_nested(fn.node):
-        if isinstance(n, ast.Assign) and isinstance(n.targets[0], ast.Name):
-            defs[n.targets[0].id] = src(n.value)
-    e, l = defs.get("earlier", ""), defs.get("later", "")
-    ok_sets = "int(x) < time" in e and "int(x) > time" in l
-    # which element of each list is used, and how
-    pairs = []
+    folder = ctx.memo("folder", lambda: Folder(ctx.index))
+    wcls = ctx.index.get_class("pycaption/sami.py", "SAMIWriter")
+    bad, n = [], 0
+    for k in range(0, 5):
+        for existing in itertools.combinations((100, 200, 300, 400), k):
+            for t in (50, 150, 250, 350, 450):
+                n += 1
+                placed = []
 
-    def scan(body):
-        last = {}
-        for st in body:
-            if isinstance(st, ast.Assign) and isinstance(st.targets[0], ast.Name):
-                last[st.targets[0].id] = src(st.value)
-            for n in walk_no_nested(st) if not isinstance(st, (ast.If, ast.For, ast.While)) else []:
-                if isinstance(n, ast.Call) and isinstance(n.func, ast.Attribute) and n.func.attr in ("insert_after", "insert_before"):
-                    recv = src(n.func.value)
-                    pairs.append((n.func.attr, last.get(recv, recv)))
-            if isinstance(st, ast.If):
-                scan(st.body)
-                scan(st.orelse)
-    scan(fn.node.body)
-    want = [("insert_after", "earlier[-1]"), ("insert_before", "later[0]")]
-    report.check(ok_sets and sorted(pairs) == sorted(want), "R-NEIGHBOUR", fn,
+                def mk(v):
+                    return Stub(f"sync@{v}", {"start": str(v)},
+                                {"insert_after": lambda new, v=v: placed.append(("after", v)),
+                                 "insert_before": lambda new, v=v: placed.append(("before", v))})
+                tags = [mk(v) for v in existing]
+
+                def find_all(name, start=None, **kw):
+                    if name != "sync":
+                        return []
+                    return [tg for tg in tags if start is None or folder.call_value(start, [tg.attrs["start"]])]
+                doc = Stub("document", {}, {"find_all": find_all,
+                                            "new_tag": lambda name, **kw: Stub("new-sync", dict(kw), {}),
+                                            "find": lambda *a, **k: None})
+                try:
+                    folder.call_function(fn, [doc, t], self_value=Stub("writer", {}, cls=wcls))
+                except AnalysisError as e:
+                    raise AnalysisError(f"_find_closest_sync cannot be folded: {e}")
+                earlier = [v for v in existing if v < t]
+                later = [v for v in existing if v > t]
+                want = [("after", earlier[-1])] if earlier else ([("before", later[0])] if later else [])
+                if placed != want:
+                    bad.append({"existing_syncs": list(existing), "new_time": t, "placed": placed, "required": want})
+    report.check(not bad, "R-NEIGHBOUR", fn,
                  "a new sync goes right after the LAST earlier sync, else right before the FIRST later one",
-                 {"found": pairs, "required": want, "earlier": e[:80], "later": l[:80]}, "5")
+                 {"documents_folded": n, "mismatches": bad[:3],
+                  "why": "any other position puts a sync out of time order: players show the cue at the wrong moment"}, "5")
